@@ -243,6 +243,12 @@ struct Holder : HolderBase
             };
             s << f;
         }
+        else if (t == "n")
+        {
+            // ... a free function passed by name (a function, not a pointer variable)
+            g_fp_text = item["v"].str();
+            s << fp_callable;
+        }
         else if (t == "p")
         {
             // ... and a plain function pointer
